@@ -551,6 +551,34 @@ fn hostile_files(seed: u64, idx: u64, work: &Path, rep: &mut Report) {
             files.push(("sig", format!("truncate@{cut}"), sigb[..cut].to_vec()));
         }
     }
+    // per-block fields (index:u32 | weak:u32 | strong[32]); these files are fed to `copia delta` together with
+    // the basis itself as the source, so that every block of the table - the damaged one included - is looked up
+    {
+        let nb = sig.blocks.len();
+        if nb > 0 {
+            let mut ks = vec![0usize, nb - 1, rng.range(0, nb - 1)];
+            ks.dedup();
+            for k in ks {
+                let at = 24 + 40 * k;
+                if at + 40 > sigb.len() {
+                    continue;
+                }
+                for v in [nb as u32, nb as u32 + 1, u32::MAX, 1 << 31, 0, (k as u32 + 1) % nb as u32] {
+                    let mut b = sigb.clone();
+                    b[at..at + 4].copy_from_slice(&v.to_le_bytes());
+                    files.push(("sig", format!("block_index[{k}]={v}"), b));
+                }
+                let mut b = sigb.clone();
+                let other = 24 + 40 * ((k + 1) % nb);
+                let w: [u8; 4] = [sigb[other + 4], sigb[other + 5], sigb[other + 6], sigb[other + 7]];
+                b[at + 4..at + 8].copy_from_slice(&w);
+                files.push(("sig", format!("block_weak[{k}]=neighbour's"), b));
+                let mut b = sigb.clone();
+                b[at + 8 + rng.range(0, 31)] ^= 1 << rng.below(8);
+                files.push(("sig", format!("block_strong[{k}]=bitflip"), b));
+            }
+        }
+    }
     // --- delta corruptions: block_size:u32 | source_size:u64 | basis_size:u64 | nops:u64 | ops... | checksum[32]
     for v in [0u32, 1, 3, 1000, 1 << 31, u32::MAX, 256, 131_072] {
         let mut b = delb.clone();
@@ -624,8 +652,10 @@ fn hostile_files(seed: u64, idx: u64, work: &Path, rep: &mut Report) {
         rep.evaluations += 1;
         let fname = if kindf == "sig" { "h.sig" } else { "h.delta" };
         std::fs::write(dir.join(fname), &bytes).unwrap();
-        let r = if kindf == "sig" { run_limited(&["delta", "source", "h.sig", "-o", "o.delta"], &dir, 2 * 1024 * 1024, 60) } else { run_limited(&["patch", "basis", "h.delta", "-o", "o.out"], &dir, 2 * 1024 * 1024, 60) };
-        let fclass: String = field.split(['=', '@', ':']).next().unwrap_or("").to_string();
+        let src_name = if field.starts_with("block_index") || field.starts_with("block_weak") || field.starts_with("block_strong") { "basis" } else { "source" };
+        let r = if kindf == "sig" { run_limited(&["delta", src_name, "h.sig", "-o", "o.delta"], &dir, 2 * 1024 * 1024, 60) } else { run_limited(&["patch", "basis", "h.delta", "-o", "o.out"], &dir, 2 * 1024 * 1024, 60) };
+        let fed: &[u8] = if src_name == "basis" { &c.basis } else { &c.source };
+        let fclass: String = field.split(['=', '@', ':', '[']).next().unwrap_or("").to_string();
         let ctx = json!({"seed": seed, "case": idx, "file": kindf, "field": field, "bs": bs, "file_hex_head": hex(&bytes[..bytes.len().min(64)])});
         let outcome = if r.code == Some(97) && crate::c01::valgrind() {
             rep.violation(&format!("C20|cli|valgrind-memcheck-error|{kindf}:{fclass}"), json!({"ctx": ctx, "stderr": r.stderr.chars().take(600).collect::<String>()}));
@@ -647,7 +677,7 @@ fn hostile_files(seed: u64, idx: u64, work: &Path, rep: &mut Report) {
                 }
             } else {
                 // delta succeeded: applying it to the basis must give the source, or fail cleanly (a corrupted signature may describe another basis)
-                let ok = std::fs::read(dir.join("o.delta")).ok().and_then(|b| bincode::deserialize::<Delta>(&b).ok()).map(|d| d.source_size == c.source.len() as u64 && d.checksum.as_bytes() == blake3::hash(&c.source).as_bytes()).unwrap_or(false);
+                let ok = std::fs::read(dir.join("o.delta")).ok().and_then(|b| bincode::deserialize::<Delta>(&b).ok()).map(|d| d.source_size == fed.len() as u64 && d.checksum.as_bytes() == blake3::hash(fed).as_bytes()).unwrap_or(false);
                 if !ok {
                     rep.violation("C20|cli|copia-delta|exit0-wrong-result", json!({"ctx": ctx}));
                 }
